@@ -1,4 +1,5 @@
-import FpgoVerif.Proofs.C05Lists
+import FpgoVerif.Proofs.C05Sets
+import FpgoVerif.Proofs.C05Twins
 /-! Property theorems for C05 — set algebra laws of the implementation models the driver executes
     (`Model/C05Impl.lean`), for ALL inputs (any element type with decidable equality, any length,
     any arity), and agreement of the generic / interface{} models where they are separate.
@@ -186,14 +187,6 @@ theorem C05_stream_contains (s : List α) (x : α) : Stream.contains s x = true 
 
 /-! ## twins with separate models -/
 
-theorem shiftDown_eq {β : Type} (s : List β) (n : Nat) : I.shiftDown s n = s.take n ++ s.drop (n + 1) := by
-  induction s generalizing n with
-  | nil => simp [I.shiftDown]
-  | cons x t ih =>
-    cases n with
-    | zero => simp [I.shiftDown]
-    | succ n => simp [I.shiftDown, ih]
-
 /-- `StreamDef.Remove` (fresh slice) and `StreamForInterfaceDef.Remove` (in-place shift) return the
     same list for every receiver and every index (negative and out-of-range included). -/
 theorem C05_twin_streamRemove {β : Type} (s : List β) (index : Int) :
@@ -202,5 +195,191 @@ theorem C05_twin_streamRemove {β : Type} (s : List β) (index : Int) :
   split
   · rw [shiftDown_eq]
   · rfl
+
+/-! ## map functions and MapSet / SetForInterface methods (by key)
+
+    A Go map has unique keys: the hypotheses `(mkeys m).Nodup` say exactly that. -/
+
+section ByKey
+variable {κ ν : Type} [DecidableEq κ]
+
+/-- Merge: k ∈ keys ↔ in one of the operands; the second operand's value wins. -/
+theorem C05_merge_keys (m1 m2 : GoMap κ ν) (k : κ) :
+    k ∈ mkeys (merge m1 m2) ↔ k ∈ mkeys m1 ∨ k ∈ mkeys m2 := mem_mkeys_merge m1 m2 k
+
+/-- IntersectionMapByKey (any arity ≥ 1): a key is in the result iff it is in every operand; the
+    counting pass (`countMap[k]++ … if v < inputLen { delete }`) is what is proved correct here. -/
+theorem C05_intersectionMapByKey_keys (ms : List (GoMap κ ν)) (hne : ms ≠ [])
+    (hms : ∀ m ∈ ms, (mkeys m).Nodup) (k : κ) :
+    k ∈ mkeys (intersectionMapByKey ms) ↔ ∀ m ∈ ms, k ∈ mkeys m :=
+  mem_mkeys_intersectionMapByKey ms hne hms k
+
+theorem C05_intersectionMapByKey_nodup (ms : List (GoMap κ ν)) : (mkeys (intersectionMapByKey ms)).Nodup :=
+  nodup_mkeys_intersectionMapByKey ms
+
+example : ([[(1, 10), (2, 20)], [(2, 21), (3, 31)], [(2, 22)]] : List (GoMap Nat Nat)) ≠ [] ∧
+    intersectionMapByKey [[(1, 10), (2, 20)], [(2, 21), (3, 31)], [(2, 22)]] = [(2, 20)] := by decide
+
+theorem C05_minusMapByKey_keys (a b : GoMap κ ν) (k : κ) :
+    k ∈ mkeys (minusMapByKey a b) ↔ k ∈ mkeys a ∧ k ∉ mkeys b := mem_mkeys_minusMapByKey a b k
+
+theorem C05_isSubsetMapByKey_iff (a b : GoMap κ ν) (ha : a ≠ []) (hb : b ≠ []) :
+    isSubsetMapByKey a b = true ↔ ∀ k ∈ mkeys a, k ∈ mkeys b := isSubsetMapByKey_iff a b ha hb
+
+/-- MapSet.Union (argument non-nil; an empty argument returns the receiver, which satisfies the law too) -/
+theorem C05_mapset_union_keys (m i : GoMap κ ν) (hm : (mkeys m).Nodup) (k : κ) :
+    (k ∈ mkeys (MapSet.union m (some i)) ↔ k ∈ mkeys m ∨ k ∈ mkeys i) ∧
+    (mkeys (MapSet.union m (some i))).Nodup := by
+  simp only [MapSet.union]
+  split
+  · rename_i h
+    have : i = [] := List.length_eq_zero_iff.1 (by simpa using h)
+    subst this
+    exact ⟨by simp [mkeys], hm⟩
+  · exact ⟨mem_mkeys_merge m i k, nodup_mkeys_merge m i⟩
+
+/-- MapSet.Intersection (unique keys in both operands) -/
+theorem C05_mapset_intersection_keys (m i : GoMap κ ν) (hm : (mkeys m).Nodup) (hi : (mkeys i).Nodup) (k : κ) :
+    (k ∈ mkeys (MapSet.intersection m (some i)) ↔ k ∈ mkeys m ∧ k ∈ mkeys i) ∧
+    (mkeys (MapSet.intersection m (some i))).Nodup := by
+  simp only [MapSet.intersection]
+  split
+  · rename_i h
+    have : i = [] := List.length_eq_zero_iff.1 (by simpa using h)
+    subst this
+    exact ⟨by simp [mkeys], by simp [mkeys]⟩
+  · refine ⟨?_, nodup_mkeys_intersectionMapByKey _⟩
+    rw [mem_mkeys_intersectionMapByKey [m, i] (by simp) (by
+      intro m' hm'
+      simp only [List.mem_cons, List.not_mem_nil, or_false] at hm'
+      rcases hm' with h | h <;> subst h <;> assumption)]
+    simp
+
+/-- MapSet.Minus -/
+theorem C05_mapset_minus_keys (m i : GoMap κ ν) (hm : (mkeys m).Nodup) (k : κ) :
+    (k ∈ mkeys (MapSet.minus m (some i)) ↔ k ∈ mkeys m ∧ k ∉ mkeys i) ∧
+    (mkeys (MapSet.minus m (some i))).Nodup := by
+  simp only [MapSet.minus]
+  split
+  · rename_i h
+    have : i = [] := List.length_eq_zero_iff.1 (by simpa using h)
+    subst this
+    exact ⟨by simp [mkeys], hm⟩
+  · simp only [MapSet.clone, duplicateMap_eq m hm]
+    refine ⟨?_, nodup_mkeys_foldl_del _ _ _ hm⟩
+    rw [mem_mkeys_foldl_del]
+    constructor
+    · rintro ⟨h1, h2⟩
+      refine ⟨h1, fun hk => ?_⟩
+      obtain ⟨p, hp, rfl⟩ := List.mem_map.1 h1
+      exact h2 p hp ((mhas_iff i p.1).2 hk) rfl
+    · rintro ⟨h1, h2⟩
+      refine ⟨h1, fun p _ hc hpk => ?_⟩
+      subst hpk
+      exact h2 ((mhas_iff i p.1).1 hc)
+
+example : MapSet.minus [(1, 10), (2, 20), (3, 30)] (some [(2, 0), (4, 0)]) = [(1, 10), (3, 30)] := by decide
+
+/-- IsSubsetByKey / IsSupersetByKey for non-empty operands -/
+theorem C05_mapset_isSubsetByKey (m i : GoMap κ ν) (hm : m ≠ []) (hi : i ≠ []) :
+    MapSet.isSubsetByKey m (some i) = true ↔ ∀ k ∈ mkeys m, k ∈ mkeys i := isSubsetMapByKey_iff m i hm hi
+
+theorem C05_mapset_isSupersetByKey (m i : GoMap κ ν) (hm : m ≠ []) (hi : i ≠ []) :
+    MapSet.isSupersetByKey m (some i) = true ↔ ∀ k ∈ mkeys i, k ∈ mkeys m := isSubsetMapByKey_iff i m hi hm
+
+example : ([(1, 0)] : GoMap Nat Nat) ≠ [] ∧ MapSet.isSubsetByKey [(1, 0)] (some [(2, 5), (1, 7)]) = true ∧
+    MapSet.isSupersetByKey [(1, 0)] (some [(2, 5), (1, 7)]) = false := by decide
+
+/-! ## twins with separate models: StreamSet "DUPLICATED ZONE" and constructors — all operands,
+    empty and nil included -/
+
+theorem C05_twin_ssMinus {β : Type} (m : GoMap κ (List β)) (input : Option (GoMap κ (List β))) :
+    G.ssMinus m input = I.ssMinus m input := by
+  cases input with
+  | none => rfl
+  | some i =>
+    simp only [G.ssMinus, I.ssMinus, MapSet.minus]
+    split <;> rfl
+
+theorem C05_twin_ssIsSubsetByKey {β : Type} (m : GoMap κ (List β)) (input : Option (GoMap κ (List β))) :
+    G.ssIsSubsetByKey m input = I.ssIsSubsetByKey m input := by
+  cases input with
+  | none => rfl
+  | some i =>
+    simp only [G.ssIsSubsetByKey, I.ssIsSubsetByKey, MapSet.isSubsetByKey]
+    split
+    · rename_i h
+      have : i = [] := List.length_eq_zero_iff.1 (by simpa using h)
+      exact isSubsetMapByKey_empty m i (Or.inr this)
+    · rfl
+
+theorem C05_twin_ssIsSupersetByKey {β : Type} (m : GoMap κ (List β)) (input : Option (GoMap κ (List β))) :
+    G.ssIsSupersetByKey m input = I.ssIsSupersetByKey m input := by
+  cases input with
+  | none => rfl
+  | some i =>
+    simp only [G.ssIsSupersetByKey, I.ssIsSupersetByKey, MapSet.isSupersetByKey, isSupersetMapByKey]
+    split
+    · rename_i h
+      have : i = [] := List.length_eq_zero_iff.1 (by simpa using h)
+      exact isSubsetMapByKey_empty i m (Or.inl this)
+    · rfl
+
+theorem C05_twin_streamSetFromMap {β : Type} (theMap : GoMap κ (List β)) :
+    G.streamSetFromMap theMap = I.streamSetFromMap theMap := by
+  simp only [G.streamSetFromMap, I.streamSetFromMap, duplicateMap]
+  split
+  · rfl
+  · cases theMap with
+    | nil => rfl
+    | cons p t => simp at *
+
+/-- the two constructors of a StreamSet result (`StreamSetFromMap(x)` copies, `&StreamSetForInterfaceDef{…: x}`
+    wraps) give the same content: Clone / Union / Intersection / MinusStreams agree on all operands -/
+theorem C05_twin_ssClone {β : Type} [DecidableEq β] (m : GoMap κ (List β)) : G.ssClone m = I.ssClone m := by
+  have h : (mkeys (duplicateMap m)).Nodup := by
+    unfold duplicateMap
+    split
+    · exact nodup_mkeys_mcopyInto _ _ (by simp [mkeys])
+    · simp [mkeys]
+  simp only [G.ssClone, I.ssClone, StreamSet.cloneW, duplicateMap_eq _ h, id]
+
+theorem C05_twin_ssUnion {β : Type} [DecidableEq β] (m : GoMap κ (List β)) (input : Option (GoMap κ (List β))) :
+    G.ssUnion m input = I.ssUnion m input := by
+  cases input with
+  | none => rfl
+  | some i => simp only [G.ssUnion, I.ssUnion, StreamSet.unionW, duplicateMap_eq _ (nodup_mkeys_merge m i), id]
+
+theorem C05_twin_ssIntersection {β : Type} [DecidableEq β] (m : GoMap κ (List β))
+    (input : Option (GoMap κ (List β))) : G.ssIntersection m input = I.ssIntersection m input := by
+  cases input with
+  | none => rfl
+  | some i =>
+    simp only [G.ssIntersection, I.ssIntersection, StreamSet.intersectionW,
+      duplicateMap_eq _ (nodup_mkeys_intersectionMapByKey [m, i]), id]
+
+theorem C05_twin_ssMinusStreams {β : Type} [DecidableEq β] (m : GoMap κ (List β))
+    (input : Option (GoMap κ (List β))) : G.ssMinusStreams m input = I.ssMinusStreams m input := by
+  have h := C05_twin_ssClone m
+  simp only [G.ssClone, I.ssClone] at h
+  cases input with
+  | none => rfl
+  | some i => simp only [G.ssMinusStreams, I.ssMinusStreams, StreamSet.minusStreamsW, h]
+
+end ByKey
+
+/-! ## closing theorems over the regenerated twin table (`Gen/Twins.lean`, rebuilt from the repository
+    on every run).  Identical code on the same comparable data gives identical answers (trusted: Go's
+    `==` / map lookup on `interface{}` values holding equal `int`s agrees with the typed one), so for
+    the pairs below ONE model serves both twins. -/
+
+/-- every pair modelled by a single function is still textually identical after type erasure -/
+theorem C05_twins_same : twinsSameOK Gen.twins = true := by decide +kernel
+
+/-- the pairs with separate `G.*` / `I.*` models still have exactly the bodies the models were written from -/
+theorem C05_twins_different_unchanged : twinsDifferentOK Gen.twins = true := by decide +kernel
+
+/-- there is no generic / interface{} pair without a model, and no interface{} function without a twin -/
+theorem C05_twins_complete : twinsCompleteOK Gen.twins Gen.twinsMissing = true := by decide +kernel
 
 end FpgoVerif.C05
